@@ -183,16 +183,25 @@ func ruleWKTTables(c *Ctx) {
 	}
 	if um := parserOf["Unmarshal"]; um != nil {
 		ast.Inspect(um.Body, func(n ast.Node) bool {
-			ifs, ok := n.(*ast.IfStmt)
+			var cond ast.Expr
+			var bodyStmts []ast.Stmt
+			switch x := n.(type) {
+			case *ast.IfStmt:
+				cond, bodyStmts = x.Cond, x.Body.List
+			case *ast.CaseClause:
+				if len(x.List) != 1 {
+					return true
+				}
+				cond, bodyStmts = x.List[0], x.Body
+			default:
+				return true
+			}
+			lit, ok := hasPrefixLit(cond)
 			if !ok {
 				return true
 			}
-			lit, ok := hasPrefixLit(ifs.Cond)
-			if !ok {
-				return true
-			}
-			r := &rrow{lit: lit, pos: ifs.Pos()}
-			for _, st := range ifs.Body.List {
+			r := &rrow{lit: lit, pos: n.Pos()}
+			for _, st := range bodyStmts {
 				ast.Inspect(st, func(m ast.Node) bool {
 					if call, ok := m.(*ast.CallExpr); ok {
 						if id, ok := call.Fun.(*ast.Ident); ok && parserOf[id.Name] != nil && r.fn == "" {
